@@ -1,6 +1,9 @@
 import MirProofs.Lemmas.Segment
+import MirProofs.Lemmas.SegmentRel
 /-! C08 — renaming segment labels by any bijection (within each annotation independently): the frame label
-    index sequences change by injective maps, which leaves pairwise, Rand and ARI unchanged. -/
+    index sequences change by injective maps, which leaves pairwise, Rand and ARI unchanged, and — over the
+    real-number reading of the entropy-based scores — MI, NMI, AMI, NCE over / under / F (both normalisations) and
+    the V-measure: the contingency table is only permuted in its rows / columns. -/
 namespace Mir.C08.Segment
 open Mir
 
@@ -17,5 +20,50 @@ theorem ari_relabel {f g : Nat → Nat} (hf : Function.Injective f) (hg : Functi
     (hl : yr.length = ye.length) :
     Segment.adjustedRandIdx (yr.map f) (ye.map g) = Segment.adjustedRandIdx yr ye :=
   Segment.adjustedRandIdx_map hf hg hl
+
+/-! ### entropy-based scores (model at the real-number instance) -/
+
+theorem mi_relabel {f g : Nat → Nat} (hf : Function.Injective f) (hg : Function.Injective g) {yr ye : List Nat}
+    (hl : yr.length = ye.length) :
+    Segment.mutualInfoIdx (α := ℝ) (yr.map f) (ye.map g) = Segment.mutualInfoIdx (α := ℝ) yr ye :=
+  Segment.mutualInfoIdx_real_map hf hg hl
+
+theorem nmi_relabel {f g : Nat → Nat} (hf : Function.Injective f) (hg : Function.Injective g) {yr ye : List Nat}
+    (hl : yr.length = ye.length) :
+    Segment.nmiIdx (α := ℝ) (yr.map f) (ye.map g) = Segment.nmiIdx (α := ℝ) yr ye :=
+  Segment.nmiIdx_real_map hf hg hl
+
+theorem ami_relabel {f g : Nat → Nat} (hf : Function.Injective f) (hg : Function.Injective g) {yr ye : List Nat}
+    (hl : yr.length = ye.length) :
+    Segment.amiIdx (α := ℝ) (yr.map f) (ye.map g) = Segment.amiIdx (α := ℝ) yr ye :=
+  Segment.amiIdx_real_map hf hg hl
+
+/-- NCE over / under / F, `marginal` = False or True, any beta -/
+theorem nce_relabel {f g : Nat → Nat} (hf : Function.Injective f) (hg : Function.Injective g) {yr ye : List Nat}
+    (hl : yr.length = ye.length) (beta : ℝ) (marginal : Bool) :
+    Segment.nceIdx (α := ℝ) (yr.map f) (ye.map g) beta marginal = Segment.nceIdx (α := ℝ) yr ye beta marginal :=
+  Segment.nceIdx_real_map hf hg hl beta marginal
+
+theorem v_relabel {f g : Nat → Nat} (hf : Function.Injective f) (hg : Function.Injective g) {yr ye : List Nat}
+    (hl : yr.length = ye.length) (beta : ℝ) :
+    Segment.vmeasureIdx (α := ℝ) (yr.map f) (ye.map g) beta = Segment.vmeasureIdx (α := ℝ) yr ye beta :=
+  Segment.nceIdx_real_map hf hg hl beta true
+
+/-- what happens to the table: the classes of a relabelled sequence are a permutation of the relabelled classes
+    (rows / columns of the contingency table are permuted, the order being that of the new names) -/
+theorem classes_relabel {f : Nat → Nat} (hf : Function.Injective f) (y : List Nat) :
+    (Segment.classes (y.map f)).Perm ((Segment.classes y).map f) := Segment.classes_map_perm hf y
+
+-- non-vacuity: an order-reversing renaming on one side, a shift on the other
+example : Function.Injective (fun n : Nat => 7 - n % 8 + 8 * (n / 8)) ∧ Function.Injective (fun n : Nat => n + 3) ∧
+    [0, 0, 1, 2].map (fun n : Nat => 7 - n % 8 + 8 * (n / 8)) = [7, 7, 6, 5] ∧
+    Segment.classes [7, 7, 6, 5] = [5, 6, 7] ∧ (Segment.classes [0, 0, 1, 2]).map (fun n : Nat => 7 - n % 8 + 8 * (n / 8)) = [7, 6, 5] := by
+  refine ⟨?_, ?_, by decide +kernel, by decide +kernel, by decide +kernel⟩
+  · intro a b h
+    simp only at h
+    omega
+  · intro a b h
+    simp only at h
+    omega
 
 end Mir.C08.Segment
